@@ -68,7 +68,8 @@ class _Buffer:
         self.bitaddr += bits
 
     def push_bytes(self, bytes: List[int]) -> None:
-        self.buffer += bytes
+        for byte in bytes:
+            self.push_word(byte, 8)
 
     def read_word(self, bits: int) -> int:
         word = 0
@@ -79,9 +80,7 @@ class _Buffer:
         return word
 
     def read_bytes(self, bytes: int) -> List[int]:
-        byteaddr = self.bitaddr >> 3
-        self.bitaddr += 8 * bytes
-        return self.buffer[byteaddr : byteaddr + bytes]
+        return [self.read_word(8) for _ in range(bytes)]
 
     def get_buffer(self) -> bytearray:
         return bytearray(self.buffer)
